@@ -68,18 +68,26 @@ class _Helper:
         pos = [p.arg for p in a.posonlyargs + a.args]
         for p, d in zip(pos[len(pos) - len(a.defaults):], a.defaults):
             self.defaults[p] = d
+        self.vararg = a.vararg.arg if a.vararg else None
         self.body = _strip_doc(node.body)
         self.expr = None
-        if len(self.body) == 1 and isinstance(self.body[0], ast.Return) and self.body[0].value is not None:
-            self.expr = self.body[0].value
+        core = [b for b in self.body if not isinstance(b, ast.Assert)]  # type-narrowing asserts in front of a one-line helper
+        if len(core) == 1 and isinstance(core[0], ast.Return) and core[0].value is not None and core[0] is self.body[-1]:
+            self.expr = core[0].value
 
     def ok(self):
         a = self.node.args
-        if a.vararg or a.kwarg or a.kwonlyargs:
+        if a.kwarg or a.kwonlyargs:
             return False
+        if a.vararg and self.expr is None:
+            return False  # *args only for single-expression helpers (bound to a tuple of the extra arguments)
         for n in ast.walk(self.node):
-            if isinstance(n, (ast.Yield, ast.YieldFrom, ast.Global, ast.Nonlocal, ast.Lambda)):
+            if isinstance(n, (ast.Yield, ast.YieldFrom, ast.Global, ast.Nonlocal)):
                 return False
+            if isinstance(n, ast.Lambda):
+                la = n.args
+                if self.expr is None or la.args or la.posonlyargs or la.kwonlyargs or la.vararg or la.kwarg:
+                    return False  # only parameterless thunks inside single-expression helpers
             if isinstance(n, (ast.FunctionDef, ast.AsyncFunctionDef, ast.ClassDef)) and n is not self.node:
                 return False
             if isinstance(n, ast.Call) and isinstance(n.func, ast.Name) and n.func.id == "super":
@@ -148,6 +156,18 @@ class _Subst(ast.NodeTransformer):
         self.mapping = mapping
         self.rename = rename
 
+    def visit_Call(self, node):
+        self.generic_visit(node)
+        # `f(*args)` where args was bound to a tuple of the caller's extra arguments
+        new_args = []
+        for a in node.args:
+            if isinstance(a, ast.Starred) and isinstance(a.value, ast.Tuple):
+                new_args.extend(a.value.elts)
+            else:
+                new_args.append(a)
+        node.args = new_args
+        return node
+
     def visit_Name(self, node):
         if node.id in self.mapping and isinstance(node.ctx, ast.Load):
             return copy.deepcopy(self.mapping[node.id])
@@ -172,14 +192,22 @@ def _bind(helper, call):
     args = list(call.args)
     if any(isinstance(a, ast.Starred) for a in args) or any(k.arg is None for k in call.keywords):
         return None
+    extra = None
     if len(args) > len(helper.params):
-        return None
+        if helper.vararg is None:
+            return None
+        extra = args[len(helper.params):]
+        args = args[:len(helper.params)]
     bound = dict(zip(helper.params, args))
+    if helper.vararg is not None:
+        bound[helper.vararg] = ast.Tuple(elts=list(extra or []), ctx=ast.Load())
     for k in call.keywords:
         if k.arg in bound or k.arg not in helper.params:
             return None
         bound[k.arg] = k.value
     for p in helper.params:
+        if p == helper.vararg:
+            continue
         if p not in bound:
             if p in helper.defaults and isinstance(helper.defaults[p], ast.Constant):
                 bound[p] = helper.defaults[p]
@@ -220,6 +248,11 @@ class _Inliner(ast.NodeTransformer):
     # ---- expression-level --------------------------------------------------
     def visit_Call(self, node):
         self.generic_visit(node)
+        # `(lambda: E)()` left behind by an inlined thunk factory
+        if isinstance(node.func, ast.Lambda) and not node.args and not node.keywords:
+            la = node.func.args
+            if not (la.args or la.posonlyargs or la.kwonlyargs or la.vararg or la.kwarg):
+                return node.func.body
         h = self._match(node)
         if h is None or h.expr is None or h.is_async:
             return node
@@ -236,6 +269,12 @@ class _Inliner(ast.NodeTransformer):
         self.count += 1
         self.used.add(h.name)
         new = _Subst(bound, {}).visit(copy.deepcopy(h.expr))
+        self.depth = getattr(self, "depth", 0) + 1
+        try:
+            if self.depth < 6:
+                new = self.visit(new)  # helper calls inside the substituted expression
+        finally:
+            self.depth -= 1
         return ast.copy_location(new, node)
 
     def visit_Attribute(self, node):
@@ -313,9 +352,10 @@ class _Inliner(ast.NodeTransformer):
         helper in *argument position* of an otherwise side-effect-free prefix
         (`super()._set_value(self._h(x))`, `lst.append(_h(a, i))`, `await f(self._h(x))`):
         hoist it into a temporary so that `_splice` can inline it."""
-        if not isinstance(stmt, (ast.Expr, ast.Assign, ast.Return, ast.AnnAssign, ast.AugAssign)):
+        is_if = isinstance(stmt, ast.If)
+        if not isinstance(stmt, (ast.Expr, ast.Assign, ast.Return, ast.AnnAssign, ast.AugAssign, ast.If)):
             return None
-        root = stmt.value
+        root = stmt.test if is_if else stmt.value
         if root is None:
             return None
         cands = []
@@ -326,7 +366,7 @@ class _Inliner(ast.NodeTransformer):
                 if not isinstance(n, ast.Await) and any(isinstance(p, ast.Await) and p.value is n for p in ast.walk(root)):
                     continue
                 cands.append(n)
-        if len(cands) != 1 or cands[0] is root:
+        if len(cands) != 1 or (cands[0] is root and not is_if):
             return None
         target = cands[0]
         # everything evaluated before `target` must be free of calls (except super())
@@ -343,6 +383,14 @@ class _Inliner(ast.NodeTransformer):
                 parts = list(node.elts)
             elif isinstance(node, ast.BinOp):
                 parts = [node.left, node.right]
+            elif isinstance(node, ast.Compare):
+                parts = [node.left] + list(node.comparators)
+            elif isinstance(node, ast.UnaryOp):
+                parts = [node.operand]
+            elif isinstance(node, ast.NamedExpr):
+                parts = [node.value]
+            elif isinstance(node, ast.BoolOp):
+                parts = [node.values[0]]  # only the first operand is evaluated unconditionally
             else:
                 return True, False
             for pt in parts:
@@ -370,7 +418,10 @@ class _Inliner(ast.NodeTransformer):
                 return super().visit(node)
 
         new_stmt = copy.copy(stmt)
-        new_stmt.value = R().visit(root)
+        if is_if:
+            new_stmt.test = ast.copy_location(ast.Name(id=tmp, ctx=ast.Load()), root) if target is root else R().visit(root)
+        else:
+            new_stmt.value = R().visit(root)
         rep = self._splice(pre)
         if rep is None:
             return None
